@@ -511,6 +511,13 @@ def record_trace(exe, args, path, timeout=600, leaks=False):
             r = _Hung()            # (recorders finish in seconds; the limits are minutes: a hang, recorded like a crash)
     if r.returncode == 2:
         raise ModelFailure("recorder failed rc=%s: %s" % (r.returncode, r.stderr[-2000:]))
+    if r.returncode == 0 and os.environ.get("VERIF_FAKE_CRASH"):
+        # self-test of the machinery (tools/selftest_crash.sh): every recorder "dies" after its last event; every check must then
+        # report a violation (exit 1), never fail itself (exit 2)
+        class _Fake:
+            returncode = -11
+            stderr = "VERIF_FAKE_CRASH"
+        r = _Fake()
     if r.returncode != 0:
         # the library crashed under the recorder (signal, abort, sanitizer report): terminal event that no
         # specification action matches, so the trace is rejected at this line
@@ -594,11 +601,23 @@ def validate_trace_resync(module, trace_path, invariants=(), name="trace", max_r
     which is_start(json) holds).  Returns dict(accepted_execs, rejections=[(lineno, line, prefix_lines)],
     states, lines)."""
     lines = open(trace_path).read().splitlines()
+    # a terminal event (the recorder died: record_trace appended it) is a line that no action of any specification matches; TLC is
+    # not asked about it (a trace specification may not even be able to evaluate its guards on it): it is a rejection by definition
+    terminal = None
+    if lines:
+        try:
+            last = json.loads(lines[-1])
+        except ValueError:
+            last = {}
+        if last.get("out") == "terminated" and last.get("k") in ("Crash", "Sanitizer"):
+            terminal = lines.pop()
     offset = 0
     rejections = []
     states = 0
     transitions = 0
     part = 0
+    if terminal is not None and not lines:
+        return {"executions": 0, "rejections": [(1, terminal, [terminal])], "states": 0, "transitions": 0, "lines": 1}
     while offset < len(lines) and len(rejections) <= max_rejections:
         part += 1
         sub = lines[offset:]
@@ -621,5 +640,11 @@ def validate_trace_resync(module, trace_path, invariants=(), name="trace", max_r
             nxt += 1
         offset += nxt
     nexec = sum(1 for ln in lines if is_start(json.loads(ln)))
+    if terminal is not None:
+        begin = len(lines) - 1
+        while begin > 0 and not is_start(json.loads(lines[begin])):
+            begin -= 1
+        rejections.append((len(lines) + 1, terminal, lines[begin:] + [terminal]))
+        lines.append(terminal)
     return {"executions": nexec, "rejections": rejections, "states": states, "transitions": transitions,
             "lines": len(lines)}
